@@ -200,7 +200,7 @@ def consistent(draw, max_classes=3, max_inst=4, max_props=3, bnode_classes=False
             p = prop_iri(pid)
             pid += 1
             lits = draw(st.lists(st.sampled_from(dts), max_size=2, unique=True))
-            rk = draw(st.sampled_from(["none", "uiri", "ubnode", "class", "class"]))
+            rk = draw(st.sampled_from(["none", "uiri", "ubnode", "class", "class", "umixed"]))
             rng = None
             if rk == "uiri":
                 rng = untyped_i
@@ -216,6 +216,9 @@ def consistent(draw, max_classes=3, max_inst=4, max_props=3, bnode_classes=False
                     cnt = draw(st.sampled_from([0, 0, 1, 1, 2, 3]))
                     for x in range(cnt):
                         triples.append([n, p, make_lit(dt, x)])
+                if rk == "umixed":
+                    # untyped IRI values on some instances, untyped blank nodes on others, never both on one instance
+                    rng = untyped_i if draw(st.booleans()) else untyped_b
                 if rng:
                     cnt = min(len(rng), draw(st.sampled_from([0, 1, 1, 2, 3])))
                     if cnt:
@@ -234,7 +237,10 @@ def consistent(draw, max_classes=3, max_inst=4, max_props=3, bnode_classes=False
             q = prop_iri(pid) + "in"
             pid += 1
             src = untyped_i if draw(st.booleans()) else untyped_b
+            mixed_src = draw(st.integers(0, 3)) == 0
             for n in inst[j]:
+                if mixed_src:       # IRI sources for some targets, blank-node sources for others, never both for one target
+                    src = untyped_i if draw(st.booleans()) else untyped_b
                 cnt = draw(st.sampled_from([0, 1, 1, 2, 3]))
                 start = draw(st.integers(0, len(src) - 1))
                 for x in range(min(cnt, len(src))):
